@@ -128,6 +128,7 @@ def run(ctx):
     check_no_swallowed_decoder_errors(ctx, P)
     # ... and every payload does reach the validating combiner: none is filtered out or skipped on the way
     F.check_combiner_images(ctx, "E6.combine", P)
+    F.check_core_combiners(ctx, "E6.combine", P)
     ctx.assume("GroupEncoding::from_bytes of both backends rejects points off the curve or outside the prime-order subgroup; vsss-rs Share::as_group_element / combine_shares_group end in GroupEncoding::from_bytes (dependency contracts, blstrs_plus 0.8.18 / bls12_381_plus 0.8.18 / vsss-rs 4.3.8)")
 
 
